@@ -40,6 +40,15 @@ def run(out, tier, seed):
     out.extra["generated_histories"] = len(hist)
     f = os.path.join(d, "obs.ndjson")
     p = C.harness(["obs-shared", "--cases", cf, "--out", f, "--tier", tier, "--seed", str(seed)], timeout=7200, check=False)
+    if p.returncode == 7:
+        # the watchdog: an operation of the library did not return within 120 s
+        last = p.stdout.strip().splitlines()[-1] if p.stdout.strip() else "{}"
+        try:
+            what = json.loads(last).get("what", "")
+        except ValueError:
+            what = ""
+        out.violation({"verdict": "operation-did-not-return", "be": what.split(" ")[0] if what else "", "op": what[what.rfind("(") + 1:-1] if "(" in what else ""}, {"what": what})
+        return
     if p.returncode != 0:
         out.violation({"verdict": "process-died", "rc": p.returncode}, {"stderr": p.stderr[-800:]})
         return
